@@ -37,7 +37,16 @@ func runMagnet(s string) (obs string) {
 	case t == nil:
 		return "MObsNil"
 	}
-	return "(MObsOk " + cq.Bytes(t.Hash) + ")"
+	var tiers []string
+	for _, tier := range t.VerifTrackers() {
+		tiers = append(tiers, renderStrs(tier))
+	}
+	urls, gr := t.VerifWebseeds()
+	allgr := true
+	for _, g := range gr {
+		allgr = allgr && g
+	}
+	return "(MObsOk " + cq.Bytes(t.Hash) + " " + cq.Bytes([]byte(t.Name)) + " " + cq.List(tiers) + " " + renderStrs(urls) + " " + cq.Bool(allgr) + ")"
 }
 
 func genMagnets(r *rand.Rand, n int) []*mcase {
@@ -102,7 +111,22 @@ func genMagnets(r *rand.Rand, n int) []*mcase {
 		case 2:
 			add("plain", "magnet:?xt=urn:btih:"+enc(h))
 		case 3:
-			add("params", "magnet:?dn=name&xt=urn:btih:"+enc(h)+"&tr=http://t.example/a&ws=http://w.example/f")
+			// further parameters: names, trackers and web seeds of every kind, in any order, repeated, empty
+			vals := []string{"http://t.example/a", "https://t2.example:8080/announce", "udp://t.example:6969", "ftp://x.example/y", "", "noscheme", "http://w.example/f", "wss://t.example/x", "http://w.example/dir/"}
+			s := "magnet:?"
+			if r.Intn(2) == 0 {
+				s += "dn=name" + fmt.Sprint(r.Intn(3)) + "&"
+			}
+			s += "xt=urn:btih:" + enc(h)
+			for k := r.Intn(7); k > 0; k-- {
+				key := []string{"tr", "ws", "as", "dn", "x.pe", "tr"}[r.Intn(6)]
+				if r.Intn(12) == 0 {
+					s += "&" + key
+				} else {
+					s += "&" + key + "=" + vals[r.Intn(len(vals))]
+				}
+			}
+			add("params", s)
 		case 4:
 			add("twoxt", "magnet:?xt=urn:btih:"+enc(h)[:r.Intn(30)]+"&xt=urn:btih:"+enc(rhash())+"&xt=urn:btih:"+enc(rhash()))
 		case 5:
